@@ -260,9 +260,11 @@ fn run_conc(l: &[Sx]) -> Sx {
                 first_reply_ms = Some(t_begin.elapsed().as_millis() as u64);
                 thread::sleep(Duration::from_millis(400));
             }
-            conn.shutdown_write();
+            if kind != "badhold" {
+                conn.shutdown_write();
+            }
             let mut closed = false;
-            let deadline = Instant::now() + Duration::from_secs(20);
+            let deadline = Instant::now() + Duration::from_secs(if kind == "badhold" { 5 } else { 20 });
             loop {
                 // a server that never stops writing is an observation, not a reason to eat all memory
                 if got.len() > (4 << 20) || Instant::now() > deadline {
@@ -285,6 +287,11 @@ fn run_conc(l: &[Sx]) -> Sx {
                         break;
                     }
                 }
+            }
+            if kind == "badhold" {
+                // a faulty peer that neither closes nor half-closes: it has seen the server give up on it
+                // (or not) and just keeps its socket for a while
+                thread::sleep(Duration::from_millis(stall_ms * 2));
             }
             (closed, got, first_reply_ms.unwrap_or(t_begin.elapsed().as_millis() as u64))
         }));
@@ -803,6 +810,63 @@ impl Suite for ListenSuite {
                 input: sx::tagged("listen-conc", vec![sx::atom(t), sx::nat(initial), cfg.sx.clone(), sx::list(cl)]),
                 tags: vec!["burst-of-long-lived-peers".into()],
             });
+        }
+        // (b4) as many faulty peers as there are workers: each sends a malformed message and then keeps its
+        //      socket open; peers that arrive afterwards must be served at once (the server is done with a
+        //      connection once it has closed it)
+        for (t, nbad) in [("unix", 2usize), ("tcp", 3)] {
+            let cfg = &cfgs[1];
+            let mut clients = Vec::new();
+            for k in 0..nbad {
+                tok += 1;
+                let g = serde_json::to_vec(&serde_json::json!({"method":"org.varlink.service.GetInfo","parameters":{"token": format!("t{}z", tok)}})).unwrap();
+                let mut total = g.clone();
+                total.push(0);
+                total.extend_from_slice(if k % 2 == 0 { b"{\"method\":5}" } else { b"\xff\xfe{}" });
+                total.push(0);
+                clients.push(client_sx("badhold", 0, &[total.clone()], &total));
+            }
+            // (not more long-lived peers than workers: below the limit nobody has to wait)
+            for k in 0..nbad {
+                tok += 1;
+                let r = serde_json::to_vec(&serde_json::json!({"method":"org.varlink.service.GetInfo","parameters":{"token": format!("t{}z", tok)}})).unwrap();
+                let mut tt = r.clone();
+                tt.push(0);
+                clients.push(client_sx("hold", 250 + 30 * k, &[tt.clone()], &tt));
+            }
+            let mut cl = vec![sx::atom("clients")];
+            cl.extend(clients);
+            cases.push(Case {
+                input: sx::tagged("listen-conc", vec![sx::atom(t), sx::nat(1), cfg.sx.clone(), sx::list(cl), sx::tagged("max", vec![sx::nat(nbad)])]),
+                tags: vec!["faulty-peers-holding-every-worker".into()],
+            });
+        }
+        // (b5) oneway calls that fail inside the generated dispatch code (ill-typed or missing parameters):
+        //      no reply may appear, whichever layer notices the failure
+        if let Some(cfg) = cfgs.iter().find(|c| c.has_gen) {
+            for t in ["unix", "tcp"] {
+                let mut clients = Vec::new();
+                for (k, params) in [serde_json::json!({"token": 7, "n": "x"}), serde_json::json!({"n": 1}), serde_json::Value::Null, serde_json::json!([1, 2, 3])].iter().enumerate() {
+                    tok += 1;
+                    let first = serde_json::json!({"method":"org.varlink.service.GetInfo","parameters":{"token": format!("t{}z", tok)}});
+                    tok += 1;
+                    let mut bad = serde_json::json!({"method":"org.example.vtest.Echo","oneway":true});
+                    if !params.is_null() {
+                        bad["parameters"] = params.clone();
+                    }
+                    let mut total = serde_json::to_vec(&first).unwrap();
+                    total.push(0);
+                    total.extend_from_slice(&serde_json::to_vec(&bad).unwrap());
+                    total.push(0);
+                    clients.push(client_sx("half", 10 * k, &[total.clone()], &total));
+                }
+                let mut cl = vec![sx::atom("clients")];
+                cl.extend(clients);
+                cases.push(Case {
+                    input: sx::tagged("listen-conc", vec![sx::atom(t), sx::nat(2), cfg.sx.clone(), sx::list(cl)]),
+                    tags: vec!["oneway-failing-in-generated-dispatch".into()],
+                });
+            }
         }
         // (c) faulty peers sending long malformed messages with non-ASCII bytes at boundary offsets
         {
